@@ -1,3 +1,4 @@
+import Cdecao.Props.C01Cde
 import Cdecao.Proofs.NodeEng3
 import Cdecao.Model.Cli
 /-! # C10 (solver half) — valid instances never reach a panic site of the node solver -/
